@@ -320,8 +320,11 @@ INTEGER_st_prealloc(INTEGER_t *st, int min_size) {
 static enum xer_pbd_rval
 INTEGER__xer_body_decode(const asn_TYPE_descriptor_t *td, void *sptr,
                          const void *chunk_buf, size_t chunk_size) {
+    const asn_INTEGER_specifics_t *specs =
+        (const asn_INTEGER_specifics_t *)td->specifics;
     INTEGER_t *st = (INTEGER_t *)sptr;
 	intmax_t dec_value;
+	uintmax_t udec_value;
 	intmax_t hex_value = 0;
 	const char *lp;
 	const char *lstart = (const char *)chunk_buf;
@@ -341,6 +344,7 @@ INTEGER__xer_body_decode(const asn_TYPE_descriptor_t *td, void *sptr,
 	} state = ST_LEADSPACE;
 	const char *dec_value_start = 0; /* INVARIANT: always !0 in ST_DIGITS */
 	const char *dec_value_end = 0;
+	const char *udec_value_end;
 
 	if(chunk_size)
 		ASN_DEBUG("INTEGER body %ld 0x%2x..0x%2x",
@@ -499,6 +503,7 @@ INTEGER__xer_body_decode(const asn_TYPE_descriptor_t *td, void *sptr,
 		/* FALL THROUGH */
 	case ST_DIGITS_TRAILSPACE:
 		/* The last symbol encountered was a digit. */
+        udec_value_end = dec_value_end;
         switch(asn_strtoimax_lim(dec_value_start, &dec_value_end, &dec_value)) {
         case ASN_STRTOX_OK:
             if(dec_value >= LONG_MIN && dec_value <= LONG_MAX) {
@@ -512,6 +517,17 @@ INTEGER__xer_body_decode(const asn_TYPE_descriptor_t *td, void *sptr,
             }
             /* Fall through */
         case ASN_STRTOX_ERROR_RANGE:
+            /* ... and the unsigned INTEGER on unsigned long. */
+            if(specs && specs->field_unsigned
+               && asn_strtoumax_lim(dec_value_start, &udec_value_end,
+                                    &udec_value) == ASN_STRTOX_OK
+               && udec_value <= ULONG_MAX) {
+                if(asn_umax2INTEGER(st, udec_value)) {
+                    ASN_DEBUG("INTEGER decode %s conversion failed", td->name);
+                    return XPBD_SYSTEM_FAILURE;
+                }
+                return XPBD_BODY_CONSUMED;
+            }
             ASN_DEBUG("INTEGER decode %s hit range limit", td->name);
             return XPBD_DECODER_LIMIT;
 		case ASN_STRTOX_ERROR_INVAL:
